@@ -73,6 +73,7 @@ static pid_t process_fork(const int *except, size_t num_except)
   ENS("C04/process_fork.failure_is_real_cause", IMPLIES(!g.in_child && RV < 0 && OLD(g.e.faults) == 0, (g.e.faults > 0 && RV == -g.e.first_errno) || (g.child_fate == FATE_FAILED_EARLY && RV == -g.child_fate_errno)))
   ENS("C04/process_fork.success_has_no_failed_call", IMPLIES(RV >= 0, g.e.faults == OLD(g.e.faults)))
   ENS("C04/process_fork.side_of_fork", IMPLIES(g.in_child, gc.cfg_child_side) && IMPLIES(RV > 0, !gc.cfg_child_side) && g.dup_ptr == OLD(g.dup_ptr) && g.dup_src == OLD(g.dup_src) && g.prep_ptr == OLD(g.prep_ptr) && g.prep_src == OLD(g.prep_src) && g.execd == OLD(g.execd) && g.env_ptr == OLD(g.env_ptr) && g.env_a == OLD(g.env_a) && g.env_b == OLD(g.env_b) && g.last_freed_vec == OLD(g.last_freed_vec) && g.exit_moved_to == OLD(g.exit_moved_to) && g.cwd_id == OLD(g.cwd_id) && g.now == OLD(g.now) && g.in_fd == OLD(g.in_fd) && g.stream_pos == OLD(g.stream_pos) && g.plan_pos == OLD(g.plan_pos))
+  ENS("C10/process_fork.parent_descriptors_keep_their_objects", IMPLIES(!g.in_child, OBJ_KEPT(0) && OBJ_KEPT(1) && OBJ_KEPT(2) && OBJ_KEPT(3) && OBJ_KEPT(4) && OBJ_KEPT(5) && OBJ_KEPT(6) && OBJ_KEPT(7) && OBJ_KEPT(8) && OBJ_KEPT(9) && OBJ_KEPT(10) && OBJ_KEPT(11) && OBJ_KEPT(12) && OBJ_KEPT(13) && OBJ_KEPT(14) && OBJ_KEPT(15) && OBJ_KEPT(16) && OBJ_KEPT(17) && OBJ_KEPT(18) && OBJ_KEPT(19) && OBJ_KEPT(20) && OBJ_KEPT(21) && OBJ_KEPT(22) && OBJ_KEPT(23) && OBJ_KEPT(24) && OBJ_KEPT(25) && OBJ_KEPT(26) && OBJ_KEPT(27) && OBJ_KEPT(28) && OBJ_KEPT(29) && OBJ_KEPT(30) && OBJ_KEPT(31)))
   ENS("C10/process_fork.excepted_descriptors_keep_their_objects", OBJ_KEPT(except[0]) && OBJ_KEPT(except[1]) && OBJ_KEPT(except[2]) && OBJ_KEPT(except[3]) && OBJ_KEPT(except[4]) && OBJ_KEPT(except[5]) && (g.fds.rd & EXCEPT6_MASK(except)) == (OLD(g.fds.rd) & EXCEPT6_MASK(except)) && (g.fds.wr & EXCEPT6_MASK(except)) == (OLD(g.fds.wr) & EXCEPT6_MASK(except)))
   ENS("C06/process_fork.parent_sends_no_signal", g.nsig == OLD(g.nsig) && g.kill_calls == OLD(g.kill_calls))
   ENS("C12/process_fork.child_clean_signal_state", IMPLIES(g.in_child, RV == 0 && g.sigmask == 0 && DISP_ALL_DEFAULT))
